@@ -260,6 +260,8 @@ class Connection:
         if self.dead or self.closed:
             raise InterfaceError(0, 'Not connected')
         srv.stats['statements'] += 1
+        self.cur_query = query  # lets the fault hook bias faults by statement
+        self.cur_args = args
         lat = srv.latency('stmt')
         if lat:
             await asyncio.sleep(lat)
